@@ -66,6 +66,14 @@ CHECKS["C07"] = (
     "3/C07",
 )
 
+CHECKS["C14"] = (
+    "fault_enumeration",
+    "deterministic simulation under a virtual clock: scripted outcome sequences x policy grid through the real RetryPolicy::execute, every delay measured exactly on tokio's paused clock, jitter from the seeded entropy seam",
+    "Every policy of the property's grid (3000 policies, also built through from_env) is executed against all outcome sequences up to length 3 and a seeded sample of longer ones; number of invocations, stop-at-first-success/definitive-error, returned result, exact delay per attempt (hint or clamped exponential step, +<=30% jitter), absence of panics and completion within a virtual-time budget are checked per execution. Enumerates the policy grid completely per cycle; longer sequences are sampled.",
+    "Trusted: tokio's paused clock (1 ms timer granularity allowed on the upper side), the classification table in the property text. For non-finite/negative multipliers only bounds are judged. Two readings of the clamp and of whether hinted retries advance the exponent are both accepted.",
+    "3/C14",
+)
+
 PENDING = {}
 
 
